@@ -47,7 +47,7 @@ PROPS = {
 PROBES = {'C16': ['several_crossing_in_one_update', 'crossing_and_returning', 'within_1e-6_of_plane', 'entered_outlet_beyond_far_end',
                   'inactive_stage', 'empty_fluid', 'ghost_inlet', 'props_to_copy_subset', 'fluid_backflow_into_inlet_zone',
                   'outlet_particle_deleted', 'inlet_recycled', 'ghost_outlet', 'inlet_particle_beyond_upstream_end',
-                  'zone_name_contains_other_zone_name']}
+                  'zone_name_contains_other_zone_name', 'manager_used_before_with_other_zone_lengths']}
 
 
 # array names: the default ones, and sets in which one zone's name is a suffix / prefix of another's (zone bookkeeping is keyed by name)
@@ -106,6 +106,8 @@ def gen(t, prop, tier):
               ghost=int(t.bool(0.5)), out_ghost=int(t.bool(0.5)), fluid_empty=int(t.bool(0.08)), props_to_copy=ptc, steps=steps, stamp=1,
               origin=[t.choice([0.0, 1.0, -3.0]), t.choice([0.0, 2.0]), 0.0])
     sc['names'] = list(NAME_SETS[t.wchoice([(0, 7), (1, 2), (2, 1)])])
+    if t.bool(0.2):
+        sc['prelife'] = [t.choice([1, 2, 3, 5, 7]), t.choice([1, 2, 3, 5, 7])]
     return sc
 
 
@@ -247,6 +249,33 @@ def execute(sc, prop):
     iom.update_dx(dx)
     iom.setup_iom(dim, QuinticSpline(dim=dim))
     iom.active_stages = [2]
+    pre = sc.get('prelife')
+    if pre is not None:
+        # the same manager and zone-info objects were used before with zones of other lengths (a previous resolution / a restart)
+        try:
+            pn_in, pn_out = int(pre[0]), int(pre[1])
+            assert 1 <= pn_in <= 8 and 1 <= pn_out <= 8
+        except Exception:
+            raise InvalidScenario('prelife')
+        p_in, ptin = make(names[0], [-(k + 0.5) * dx for k in range(pn_in)])
+        p_out, ptou = make(names[2], [(n_fluid + k + 0.5) * dx for k in range(pn_out)])
+        prev = {names[0]: p_in, names[1]: fluid, names[2]: p_out}
+        for pa, toks in ((p_in, ptin), (p_out, ptou)):
+            iom.add_io_properties(pa, None)
+            pa.add_property('token', type='double', data=toks)
+            pa.add_property('sv', type='double', stride=3, data=np.repeat(toks, 3) + np.tile([0.0, 0.25, 0.5], len(toks)))
+        if has_ghost:
+            g0 = iom.create_ghost(p_in, inlet=True)
+            prev[g0.name] = g0
+        if out_ghost:
+            g1 = iom.create_ghost(p_out, inlet=False)
+            iom.add_io_properties(g1, None)
+            for p in p_out.properties:
+                if p not in g1.properties:
+                    g1.add_property(p, type=p_out.properties[p].get_c_type(), stride=p_out.stride.get(p, 1))
+            prev[g1.name] = g1
+        iom.get_inlet_outlet(prev)
+        probe('manager_used_before_with_other_zone_lengths')
     ios = iom.get_inlet_outlet(arrays)
     inlet_io, outlet_io = ios[0], ios[1]
     Lin = iinfo.length
